@@ -232,22 +232,46 @@ func (d *DeviceRemote) AddEntityAndFeatures(initialData bool, data *model.NodeMa
 			}
 		}
 
-		entity.SetDescription(ei.Description.Description)
-		entity.RemoveAllFeatures()
-
+		var features []api.FeatureRemoteInterface
 		for _, fi := range data.FeatureInformation {
 			if fi.Description == nil || fi.Description.FeatureAddress == nil {
 				continue
 			}
 			if reflect.DeepEqual(fi.Description.FeatureAddress.Entity, entityAddress) {
 				if f, ok := unmarshalFeature(entity, fi); ok {
-					entity.AddFeature(f)
+					features = append(features, f)
 				}
 			}
+		}
+
+		// the device information entity has to keep its node management feature,
+		// without it no message of the remote device would be accepted any more
+		if reflect.DeepEqual(entityAddress, DeviceInformationAddressEntity) &&
+			hasNodeManagement(entity.Features()) && !hasNodeManagement(features) {
+			continue
+		}
+
+		entity.SetDescription(ei.Description.Description)
+		entity.RemoveAllFeatures()
+
+		for _, f := range features {
+			entity.AddFeature(f)
 		}
 	}
 
 	return rEntites, nil
+}
+
+// check if a list of features contains the one with the node management feature id
+func hasNodeManagement(features []api.FeatureRemoteInterface) bool {
+	for _, f := range features {
+		if f.Address() != nil && f.Address().Feature != nil &&
+			uint(*f.Address().Feature) == NodeManagementFeatureId {
+			return true
+		}
+	}
+
+	return false
 }
 
 // check if the provided entity information is correct
